@@ -34,6 +34,12 @@ Definition either (k1 k2 : bytes) (vars : list (bytes * bytes)) : option bytes :
   match var_value k1 vars with Some v => Some v | None => var_value k2 vars end.
 Definition consumed_keys : list bytes :=
   [str "hostname"; str "sv_hostname"; str "mapname"; str "map"; str "maxclients"; str "sv_maxclients"; str "version"; str "*version"].
+(* of two spellings of a variable only the one that is used leaves the unused entries *)
+Definition used_key (k1 k2 : bytes) (vars : list (bytes * bytes)) : list bytes :=
+  match var_value k1 vars with Some _ => [k1] | None => match var_value k2 vars with Some _ => [k2] | None => [] end end.
+Definition consumed_of (vars : list (bytes * bytes)) : list bytes :=
+  used_key (str "hostname") (str "sv_hostname") vars ++ used_key (str "mapname") (str "map") vars
+  ++ used_key (str "maxclients") (str "sv_maxclients") vars ++ used_key (str "version") (str "*version") vars.
 Definition quake_expected (st : qstate) : option qresponse :=
   match either (str "hostname") (str "sv_hostname") (qs_vars st),
         either (str "mapname") (str "map") (qs_vars st),
@@ -43,7 +49,7 @@ Definition quake_expected (st : qstate) : option qresponse :=
       | Some m =>
           Some (mk_qresp name map (qs_players st) (lenN (qs_players st) mod 256) m
                   (either (str "version") (str "*version") (qs_vars st))
-                  (filter (fun kv => negb (existsb (bytes_eqb (fst kv)) consumed_keys)) (qs_vars st)))
+                  (filter (fun kv => negb (existsb (bytes_eqb (fst kv)) (consumed_of (qs_vars st)))) (qs_vars st)))
       | None => None
       end
   | _, _, _ => None
@@ -85,10 +91,15 @@ Definition gen_qstate (v : qver) : G qstate :=
   gen* ver := gopt (gtext_of var_alphabet) in
   gen* ne := below 6 in gen* extras := gen_extras (N.to_nat ne) 0 in
   gen* pos := below (ne + 1) in
+  (* some servers send both spellings of a variable: the second one stays an ordinary variable *)
+  gen* b1 := chance 1 4 in gen* b2 := chance 1 6 in gen* bv := gtext_of var_alphabet in
+  let both := (if b1 then [((if hk then str "sv_hostname" else str "hostname"), bv)] else [])
+              ++ (if b2 then [((if mk then str "map" else str "mapname"), bv)] else []) in
   let named := [((if hk then str "hostname" else str "sv_hostname"), name);
                 ((if mk then str "mapname" else str "map"), mapv);
                 ((if xk then str "maxclients" else str "sv_maxclients"), show_N maxc)]
-               ++ match ver with Some x => [((if vk then str "version" else str "*version"), x)] | None => [] end in
+               ++ match ver with Some x => [((if vk then str "version" else str "*version"), x)] | None => [] end
+               ++ both in
   let vars := firstn (N.to_nat pos) extras ++ named ++ skipn (N.to_nat pos) extras in
   gen* np := (gen* k := below 6 in if k =? 0 then gret 0 else if k =? 1 then gret 1 else below 7) in
   gen* ps := grepeat (N.to_nat np) (match v with Q1 => gen_q1_player | _ => gen_q2_player end) in
